@@ -1056,6 +1056,7 @@ class Package:
             return self.envs[rel]
         env = {}
         self.envs[rel] = env
+        env["__globals__"] = env  # scopes nested in the module's functions are copies: they still reach the module's names live
         env.update({
             "cg": self.cg, "nx": self.nx, "Circuit": self._cg_attr("Circuit"), "BlackBox": self._cg_attr("BlackBox"),
             "primitive_gates": list(self.voc["primitive_gates"]), "addable_types": list(self.voc["addable_types"]), "supported_types": list(self.voc["supported_types"]),
@@ -1067,7 +1068,8 @@ class Package:
         self._bind_imports(rel, env)
         from .models import MCNF, MIDPool, MSolver
 
-        env.setdefault("__imports__", {"pysat.formula.CNF": MCNF, "pysat.formula.IDPool": MIDPool, "pysat.solvers.Cadical153": MSolver, "pysat.solvers.Cadical": MSolver})
+        env.setdefault("__imports__", {"pysat.formula.CNF": MCNF, "pysat.formula.IDPool": MIDPool, "pysat.solvers.Cadical153": MSolver, "pysat.solvers.Cadical": MSolver,
+                                       **getattr(self, "import_overrides", {})})  # (what stands for a third-party import is the same in every module of the package)
         bi = BlockInterp(env, max_steps=self.max_steps)
         bi.me.env = env  # share the dict: closures see functions defined later in the module
         tree = self.repo.tree[rel]
